@@ -83,6 +83,7 @@ func check(r *mc.Run, id string, f func() string) {
 			return "panic"
 		}
 		r.Nontrivial(id)
+		r.Outcome(strings.SplitN(id, " ", 2)[0]) // cases per structure
 		if r.State(strings.SplitN(id, " ", 3)[0] + strings.SplitN(id+" x x", " ", 3)[1]) {
 			r.Sample(map[string]any{"case": id, "observation": out})
 		}
